@@ -14,7 +14,9 @@ theorem checkOnce_def (p : Prog) (src : Src) (ts : TS) :
       let o := (bodyOf p).run src { ts with ctxCount := 0 }
       let c := cleanupPhase o.ts
       let err0 : Option Err := match c.err with
-        | some e => some (e.nest (cleanupCtx o.res o.ts))
+        | some e =>
+          if e.isInvalid then (match o.res with | .error e0 => some e0 | .ok _ => some e)
+          else some (e.nest (cleanupCtx o.res o.ts))
         | none => match o.res with | .error e => some e | .ok _ => none
       let err : Option Err := match c.ts.failed with
         | some m => (match err0 with
